@@ -66,6 +66,10 @@ def worker(case: Dict[str, Any]) -> CaseResult:
     replay_case["_queries"] = queries
     with core.Scratch() as root:
         cfg = write_case(root, sdl, queries, cfg_full)
+        if case["idx"] % 4 == 3:
+            # something was generated in this interpreter before: the same inputs with nothing configured
+            from ..genpkg import decoy_generations
+            stats["decoy_generations_before"] = decoy_generations(root, sdl, queries)
         with warnings.catch_warnings():
             warnings.simplefilter("ignore")
             gen = run_cli(root, "client", cfg)
